@@ -12,6 +12,8 @@ for f in sorted(glob.glob("/verif/seeded/*/meta.json")):
     note = " ".join(m["what_it_needs_to_manifest"].split())
     note = note.replace("|", "/")[:230]
     det = "**caught** (quick)" if m["detected_by_quick_check"] else ("MISSED" if m["check_exit_code"] == 0 else "exit %s" % m["check_exit_code"])
+    if not m["detected_by_quick_check"] and m.get("reported_as"):
+        det = "not a violation of the property as stated; reported as model drift"
     if not m["detected_by_quick_check"] and m.get("detected_by_quick_check_of"):
         det = "outside this property; **caught by %s** (quick)" % m["detected_by_quick_check_of"]
     cl = m.get("first_violation_line", "")
